@@ -20,7 +20,7 @@ CHECKS.update({
          "Go map iteration order cannot be seeded (divergence from it shows with probability 1-(1/2)^(R-1) per occurrence); wall-clock seam (testing/synctest) not built at this commit; CometBFT stubbed.",
          "DESIGN.md §4 C01"),
  "C15": ("exploration",
-         "deterministic simulation: seeded mixed histories (staking, slashing evidence/downtime, distribution, gov, authz, vesting, liquid vesting, DAO, ERC20, EVM) with clock jumps and byzantine-proposer txs; every crisis invariant route evaluated on the committed state after every block",
+         "deterministic simulation: seeded mixed histories (staking, slashing evidence/downtime, distribution, gov, authz, vesting, liquid vesting, DAO, ERC20, EVM) with clock jumps and byzantine-proposer txs; every crisis invariant route evaluated on the committed state after every block; 30 % of the runs are contract-program runs (FIC call trees touching module accounts, precompile calls incl. createValidator, attached value, caught failures) under the same oracle",
          "After every block of every sampled history all invariant routes registered with the crisis keeper (bank, staking, distribution, gov) are evaluated on the committed state; a broken route is the violation, carrying the invariant's own message.",
          "Trusts the SDK invariants themselves as the statement of the accounting rules; sampling only.",
          "DESIGN.md §4 C15"),
@@ -72,7 +72,7 @@ CHECKS.update({
 
 CHECKS.update({
  "C06": ("exploration",
-         "deterministic simulation with a byzantine client and proposer: seeded message trees nesting MsgExec/MsgGrant to depth <= 9 and width <= 4 with a blocked message at a seeded position, on every route selector (plain, dynamic-fee, Web3/EIP-712, Ethereum) and with seeded extension-option lists; correctly signed, fee paid, delivered without CheckTx; independent tree classifier + no-effect / no-ethereum_tx-event oracle",
+         "deterministic simulation with a byzantine client and proposer: seeded message trees nesting MsgExec/MsgGrant to depth <= 9 and width <= 4 with a blocked message at a seeded position, on every route selector (plain, dynamic-fee, Web3/EIP-712, Ethereum) and with seeded extension-option lists (registered options in every order and an unregistered one); correctly signed, fee paid, delivered without CheckTx; independent tree classifier + no-effect / no-ethereum_tx-event oracle",
          "An independent walker classifies each generated tx from its own description (never from the ante handler); a tx in the forbidden class must return a non-zero code, leave the fingerprint of all known accounts and the fee collector unchanged and emit no ethereum_tx event; ethereum_tx events may only appear on the Ethereum route. Positive controls (allowed nested exec, plain eth tx) must succeed so that the batch is not vacuous.",
          "The property is a function of one transaction: the simulator contributes the adversarial actor and the end-to-end observable, not schedule exploration (stated caveat, DESIGN.md §4 C06). Trees deeper than the implementation's nesting cap are rejected by it, which the oracle accepts (one-sided).",
          "DESIGN.md §4 C06"),
@@ -100,15 +100,15 @@ CHECKS.update({
  "C02": ("exploration",
          "deterministic simulation with hostile contracts as fault injectors: seeded FIC programs (call trees as data: nested calls, attached value at any edge, try/catch, REVERT/INVALID/out-of-gas by drawn stipends) hitting the staking and distribution precompiles with every (signer, caller, named account) relationship and dirty-set choice; total-supply conservation around every Ethereum tx on the real app",
          "Around every Ethereum transaction (program through a frame-interpreter contract, or direct EOA->precompile call) the bank's total supply of the native coin and all actors' balances are read; supply must not change, and a transaction that failed must move no funds. Violations are classified by the smallest discriminating facts (failed frame containing a precompile call; balance moved for a non-caller while dirty in the EVM journal) so that the two known root causes do not mask others; three run regimes (no precompile calls / no failing frames / everything).",
-         "ICS-20 and the unreachable erc20/werc20 precompiles are not exercised at this commit (no IBC channel in this profile); per-account attribution relies on supply + actor balances, not on bank events.",
+         "ICS-20 and the erc20/werc20 precompiles are not exercised (no IBC channel in this profile); staking rewards exist in 60 % of the runs (coinomics on; fees are zero), contracts hold stake themselves in half of them; per-account attribution relies on supply + actor balances, not on bank events.",
          "DESIGN.md §4 C02"),
  "C04": ("exploration",
          "deterministic simulation: FIC programs and direct calls exercising staking/distribution precompile methods under every identity relation, with a seeded grant life cycle (approve / increase / decrease / revoke, limited and unlimited, several message types) and spends through contracts incl. re-entrancy and frame failures; non-interference + grant-gate + allowance-arithmetic oracle from pre/post state",
-         "For every account that is neither the signer nor the immediate caller of a committed state-changing precompile call: delegations, unbondings, redelegations, withdraw address and grants-as-granter unchanged and balance not decreased. A staking spend committed by a contract requires a grant from the signer to that contract in the pre-state covering type and amount; afterwards a limited grant is reduced by exactly the amounts used (deleted at zero, never exceeded); approve/increase/decrease/revoke set exactly the stated allowance.",
+         "For every account that is neither the signer nor the immediate caller of a committed state-changing precompile call: delegations, unbondings, redelegations, withdraw address and grants-as-granter unchanged and balance not decreased. A staking spend committed by a contract requires a grant from the signer to that contract in the pre-state covering type and amount; and, when the grant names validators, the validator the message is checked against; afterwards a limited grant is reduced by exactly the amounts used (deleted at zero, never exceeded); approve/increase/decrease/revoke set exactly the stated allowance.",
          "Effects that survive a failed frame (finding C05-001) are attributed to C05 and skipped here; ICS-20 grants not exercised at this commit; expiry by clock jump not yet generated.",
          "DESIGN.md §4 C04"),
  "C05": ("exploration",
-         "deterministic simulation with frame-failure injection: for every sampled FIC program the block boundary is forked twice; fork A runs the program, fork B runs it with every frame that failed in A replaced by a stub that fails without doing anything; per-store commit hashes, logs and outcome compared (pruned-program fork differential)",
+         "deterministic simulation with frame-failure injection: for every sampled FIC program the block boundary is forked twice; fork A runs the program, fork B runs it with every frame that failed in A replaced by a stub that fails without doing anything; per-store content, logs and outcome compared (pruned-program fork differential); regimes with disposable self-destructing contracts and with few storage keys/values (frames restore each other's and the committed values)",
          "No model of what any message does is needed: if a failed frame leaves no trace, running the program and running it with the failed frames hollowed out must commit identical stores (all but the fee market's block-gas figure) and emit the same number of logs. Fees are zero in this profile so gas cannot leak into state. Failure kinds: REVERT, INVALID, out of gas via drawn stipends (incl. inside the precompile's gas meter), STATICCALL write protection, failing precompile calls, failure in siblings and in parents caught one level higher.",
          "The hand-assembled interpreter contract is unit-tested against go-ethereum's runtime (sim/evmprog/fic_test.go); which calls ran inside a frame that died without return data is classified statically from the program.",
          "DESIGN.md §4 C05"),
@@ -117,16 +117,16 @@ CHECKS.update({
 CHECKS.update({
  "C16": ("exploration",
          "deterministic simulation: seeded staking/distribution histories with slashing, unbondings and redelegations in flight; at seeded boundaries a native-message fork and a precompile-call fork of the same disk are executed and their committed stores compared (fork differential); read-only precompile methods compared with module state at simulated states",
-         "For every sampled (method, arguments incl. zero / above balance / huge / invalid validator, state) the owner's native message and the owner's direct precompile call are executed on two forks of the same block boundary: both must succeed or both fail, and the staking, distribution, slashing, authz, bank, gov, ibc/transfer/capability and Haqq module stores must be identical afterwards (fees are zero; evm/feemarket/acc ignored). delegation / unbondingDelegation / bank.balances / bank.totalSupply outputs are decoded and compared with keeper state.",
-         "ICS-20 transfer, claimRewards (no single native equivalent), validators/redelegations pagination and supplyOf are not compared at this commit.",
+         "For every sampled (method, arguments incl. zero / above balance / huge / invalid validator, state) the owner's native message and the owner's direct precompile call are executed on two forks of the same block boundary: both must succeed or both fail, and the staking, distribution, slashing, authz, bank, gov, ibc/transfer/capability and Haqq module stores must be identical afterwards (fees are zero; evm/feemarket/acc ignored). Read-only methods (staking delegation, unbondingDelegation, validator, validators by status, redelegation, allowance; distribution delegationRewards, delegationTotalRewards, delegatorValidators, delegatorWithdrawAddress, validatorCommission, validatorOutstandingRewards; bank balances, totalSupply) are decoded and compared field by field with the modules' own state.",
+         "ICS-20 transfer, claimRewards (no single native equivalent), redelegations pagination, validatorSlashes/DistributionInfo and supplyOf are not compared; DecCoin outputs are compared on their integer part (the ABI carries a truncated amount with precision 18). Rewards exist in 70 % of the runs (coinomics).",
          "DESIGN.md §4 C16"),
 })
 
 CHECKS.update({
  "C10": ("exploration",
-         "deterministic simulation: coin-origin pairs (governance-registered coin, liquid-vesting denoms) and ERC20-origin pairs over the repository's honest, delayed-malicious and direct-balance-manipulation token artefacts; seeded MsgConvertCoin / MsgConvertERC20 / ERC20 transfer to the module address (hook) / bank MsgSend wrapper / plain transfers / holder burns / governance toggles / restarts; backing inequality after every tx and block + per-conversion delta identity",
-         "After every transaction and block: for every coin-origin pair ERC20 totalSupply <= coins escrowed by the module (and equal once holder burns observed by the model are added); for every ERC20-origin pair coin supply <= tokens held by the module, also against the lying token contracts. Per conversion the two sides move by exactly the requested amount or nothing moves.",
-         "IBC receive/ack/timeout conversion callbacks are NOT exercised at this commit (no loopback channel yet); the chameleon token of the design is replaced by the repository's three compiled artefacts; self-destructed tokens not generated.",
+         "deterministic simulation: coin-origin pairs (governance-registered coin, liquid-vesting denoms) and ERC20-origin pairs over the repository's honest, delayed-malicious and direct-balance-manipulation token artefacts; seeded MsgConvertCoin / MsgConvertERC20 / ERC20 transfer to the module address (hook) / bank MsgSend wrapper / plain transfers / holder burns / governance toggles / restarts; backing inequality after every tx and block + per-conversion delta identity. A third of the runs are two-chain runs: two real Haqq applications joined by an ICS-20 channel on ibc-go's testing light clients, the simulator as relayer (delays, reorders, duplicates, drops packets and acknowledgements until they time out, error acknowledgements, pair toggles and token pauses while packets are in flight)",
+         "After every transaction and block: for every coin-origin pair ERC20 totalSupply <= coins escrowed by the module (and equal once holder burns observed by the model are added); for every ERC20-origin pair coin supply <= tokens held by the module, also against the lying token contracts. Per conversion the two sides move by exactly the requested amount or nothing moves. Two-chain runs: the backing equation of every pair on both chains after every step; per asset family, holdings on both chains in either representation plus what is in flight equals what was issued; a delivery credits exactly the packet amount, a duplicate or late delivery / acknowledgement changes nothing, a timeout or error acknowledgement refunds exactly the amount; once the relayer catches up every packet resolves and the home-chain escrow equals the vouchers on the other chain.",
+         "The IBC handshake uses the repository's ibc/testing adapter (its setup transactions carry a time-seeded memo: gas and base fee of the setup differ between processes, nothing the oracles read); the two-chain runs have no crash injection; the chameleon token of the design is replaced by the repository's three compiled artefacts plus pausing the honest token; self-destructed tokens not generated.",
          "DESIGN.md §4 C10"),
 })
 
